@@ -21,6 +21,7 @@ struct Step {
 	bool violated = false;	// the oracle failed on the last event (branch is not extended)
 	std::string key;		// canonical state after the history
 	std::string outcome;	// short label of what the last event did (vacuity histogram)
+	bool terminal = false;	// probe event: judged, never extended, not a state
 };
 
 inline std::string hist_str(const Hist& h)
@@ -29,8 +30,10 @@ inline Hist parse_hist(const std::string& s)
 { Hist h; std::istringstream is(s); std::string x; while (std::getline(is, x, ',')) if (!x.empty()) h.push_back(atoi(x.c_str())); return h; }
 
 template<class Model>
-void explore(Model& M, vh::Run& R, int depth, const std::string& cfgname, int shard_depth = 2)
+void explore(Model& M, vh::Run& R, int depth, const std::string& cfgname, int shard_depth = 2, int first_probe_event = -1)
 {
+	// first_probe_event >= 0: events from that index on are probes (final steps).  Then the (small) prefix menu is explored
+	// by every shard and the probes are sharded by the hash of the whole history.
 	const int nev = M.nevents();
 	std::unordered_set<uint64_t> seen; std::vector<uint64_t> fresh;
 	std::vector<Hist> frontier(1), next;
@@ -48,7 +51,8 @@ void explore(Model& M, vh::Run& R, int depth, const std::string& cfgname, int sh
 			if (R.out_of_time()) { complete = false; break; }
 			for (int ev = 0; ev < nev; ++ev) {
 				Hist h2(h); h2.push_back(ev);
-				if ((int)h2.size() == shard_depth && vh::fnv(hist_str(h2)) % R.shard_n != R.shard_k) continue;
+				if (first_probe_event >= 0) { if (ev >= first_probe_event && vh::fnv(hist_str(h2)) % R.shard_n != R.shard_k) continue; }
+				else if ((int)h2.size() == shard_depth && vh::fnv(hist_str(h2)) % R.shard_n != R.shard_k) continue;
 				++id;
 				if (id < R.from) continue;	// resume after a crash: skip what was already run
 				const std::string hs = cfgname + ";" + hist_str(h2);
@@ -57,7 +61,7 @@ void explore(Model& M, vh::Run& R, int depth, const std::string& cfgname, int sh
 				if (!r.enabled) { --R.evaluations; continue; }
 				++R.transitions; R.outcome(M.evname(ev) + ":" + r.outcome);
 				if ((int)h2.size() > maxd) maxd = (int)h2.size();
-				if (r.violated) continue;
+				if (r.violated || r.terminal) continue;
 				uint64_t k = vh::fnv(r.key);
 				if (seen.insert(k).second) {
 					fresh.push_back(k); ++R.nontrivial;
